@@ -788,5 +788,39 @@ pub fn all() -> Vec<Witness> {
             case: case_of(main, procs, b"", vec![]),
         });
     }
+    // ---- FOR step given as a binary expression ----
+    {
+        let mut b = B(0);
+        let for_id = {
+            b.0 += 1;
+            b.0
+        };
+        let body = vec![b.print(Dev::Screen, vec![e(lit("T")), PItem::Semi, e(var("W1%"))])];
+        let main = vec![
+            Stmt {
+                id: for_id,
+                kind: StmtKind::For {
+                    var: "W1%".into(),
+                    from: int(0),
+                    to: int(3),
+                    step: Some(Expr::Add(
+                        bx(Expr::Mul(bx(var("G1%")), bx(int(0)))),
+                        bx(int(2)),
+                    )),
+                    body,
+                },
+            },
+            b.trace("end"),
+            b.s(StmtKind::End),
+        ];
+        out.push(Witness {
+            name: "fixed-for-step-binary-expression",
+            property: "C05",
+            class: "ControlFlow",
+            key: "",
+            what: "FOR ... STEP a + b: the zero check loaded 0 into register B before the step was evaluated, a binary step expression overwrote B with its right operand, and a step equal to that operand (G1% * 0 + 2) raised error 258 'zero step'",
+            case: case_of(main, vec![], b"", vec![]),
+        });
+    }
     out
 }
